@@ -4,8 +4,18 @@ PewModel/Filters.lean (mechanism `meanCells*`/`medianCells*`, specification `spe
 Observation points: the returned array (shape and every pixel) and the input array before/after.
 Interior pixels ("at least one full window from the border") are compared with the per-pixel
 definition; border pixels only with "unchanged, or within the range of the real pixels of the
-window".  A pixel whose exact decision margin is below the float tolerance may take either value."""
+window".  A pixel whose exact decision margin is below the float tolerance may take either value.
+
+Images of more than SPARSE_ABOVE pixels (the "large" class: above 2^16 and 2^17 elements) are compared
+with the specification at a pixel set instead of everywhere, because the exact specification costs
+0.3-2 ms per pixel: every pixel whose output differs from the input (sampled above a cap), a random
+sample, all pixels of full rows/columns (1-D: segments) near size/2, near multiples of 256/128/64
+(1-D: 65536, 32768, ...) and at random places - and every pixel at which the implementation differs
+from the Lean mechanism model, which (unless the case says `with_model: false`) is still compared at
+ALL pixels.  The driver op `c13.at` evaluates the same Lean definitions as `c13.filter`."""
 import math
+import os
+import random
 import sys
 import warnings
 from fractions import Fraction
@@ -16,6 +26,61 @@ from harness import core
 from harness.core import Prop, outcome, unrat
 
 REL = 1e-9
+SPARSE_ABOVE = 4096  # more pixels than this: compare at a requested pixel set (driver op c13.at)
+
+
+def pick_lines(rng, s, quota, steps):
+    """`quota` distinct indices in range(s): near s/2, near the multiples of `steps` (coarsest first), then random"""
+    out = []
+
+    def add(i):
+        i = min(max(i, 0), s - 1)
+        if i not in out and len(out) < quota:
+            out.append(i)
+
+    add(s // 2 + rng.randint(-4, 3))
+    seen = set()
+    for step in steps:
+        for m in range(step, s, step):
+            if m not in seen:
+                seen.add(m)
+                add(m + rng.randint(-4, 3))
+    tries = 0
+    while len(out) < min(quota, s) and tries < 10 * quota + 100:
+        add(rng.randrange(s))
+        tries += 1
+    return out
+
+
+def pick_pixels(case, shape, changed):
+    """row-major flat indices at which a large image is compared (all of them when the budget allows)"""
+    n = int(np.prod(shape))
+    budget = case.get("px_budget")
+    if not isinstance(budget, int) or budget <= 0:
+        # about 3 s of exact specification: its cost per pixel grows with the window area (2-D median: area^2)
+        area = int(np.prod(case["block"]))
+        budget = 9000 * 25 // max(25, area) if len(shape) == 2 else 3000 * 5 // max(5, area)
+    if n <= budget:
+        return list(range(n))
+    rng = random.Random(f"c13-px:{case.get('sample_seed', 0)}")
+    chosen = set()
+    if len(shape) == 2:
+        n0, n1 = shape
+        for i in pick_lines(rng, n0, max(1, int(0.2 * budget) // n1), (256, 128, 64)):
+            chosen.update(range(i * n1, (i + 1) * n1))
+        for j in pick_lines(rng, n1, max(1, int(0.2 * budget) // n0), (256, 128, 64)):
+            chosen.update(range(j, n, n1))
+    else:
+        seg = 96
+        for a in pick_lines(rng, n, max(1, int(0.4 * budget) // seg), (65536, 32768, 16384, 8192, 4096)):
+            chosen.update(range(max(0, a - seg // 2), min(n, a + seg // 2)))
+    ch = [int(k) for k in changed]
+    cap = max(1, int(0.45 * budget))
+    if len(ch) > cap:
+        ch = rng.sample(ch, cap)
+    chosen.update(ch)
+    chosen.update(rng.sample(range(n), min(n, max(1, int(0.15 * budget)))))
+    return sorted(chosen)
 
 
 def thr_float(t):
@@ -44,7 +109,14 @@ class C13(Prop):
     rule = ("1-D (n = b..60) and 2-D (sides b..26) dyadic images: noise, ramps, plateaus, two-valued ties, constants, with isolated "
             "spikes, spike clusters and constant regions; odd windows 3..9 per axis (equal or not, int or tuple), thresholds 0, "
             "finite, inf; C/F/strided layouts; offsets 0/1000/2^20. non-trivial = at least one interior pixel is replaced, or a "
-            "border pixel is replaced, or the image is constant, or the threshold is 0/inf; distinct by canonical case hash")
+            "border pixel is replaced, or the image is constant, or the threshold is 0/inf; distinct by canonical case hash. "
+            "Large class (targeted, data drawn from VERIF_SEED): 2-D images above 2^16 (quick and thorough) and above 2^17 "
+            "(thorough) elements, 1-D signals above 2^16 / 2^17 samples, both filters, windows 3..7, integer noise / gradient / "
+            "steps / banded-amplitude data (bell-shaped or uniform noise) with many spikes, thresholds 1.2..3 (many pixels a few units from the "
+            "threshold, none within the float tolerance by construction of the data); 2 per quick run, 9 per thorough run; "
+            "mechanism model compared at every pixel (left out for the second quick case and the 1-D 2^17 case); specification at "
+            "every pixel where mechanism and implementation differ, every changed pixel (capped), a random sample and full "
+            "rows/columns/segments (see module docstring)")
     trusted = ["np.pad(mode='mean'|'median', stat_length), np.mean/np.std(where=), np.median, np.where, as_strided as documented; "
                "float evaluation of |x-m| > t*s is within 1e-9 relative (+1e-12*max|x|*(1+t) absolute) of the exact value: pixels "
                "whose exact margin is smaller may take either value; replacement values compared at 1e-9 relative"]
@@ -93,6 +165,91 @@ class C13(Prop):
                 feats.append("constant-region")
         return [int(v) for v in a.ravel()], feats
 
+    # ------------------------------------------------------------------ large images (above 2^16 / 2^17 elements)
+    def gen_large_data(self, rng, shape):
+        n = int(np.prod(shape))
+        idx = np.indices(shape)
+
+        bell = rng.random() < 0.75  # bell-shaped integer noise: at thresholds 2..3 a few percent of the pixels are just beyond
+        # the threshold and as many just inside it; uniform noise has its near-threshold pixels at 1.2..1.5
+
+        def noise(amp):
+            if bell:
+                return np.array([round(rng.gauss(0.0, amp / 2.0)) for _ in range(n)], dtype=np.int64).reshape(shape)
+            return np.array(rng.choices(range(-amp, amp + 1), k=n), dtype=np.int64).reshape(shape)
+
+        style = rng.choice(["noise", "noise", "gradient", "steps", "bands"])
+        if style == "noise":
+            a = noise(rng.choice([5, 12, 40]))
+        elif style == "gradient":
+            a = sum(rng.randint(-2, 2) * idx[k] for k in range(len(shape))) + noise(rng.choice([3, 8]))
+        elif style == "steps":
+            w = rng.randint(16, 48)
+            lv = np.array([rng.randint(-60, 60) for _ in range(64)], dtype=np.int64)
+            a = lv[sum(idx[k] // w for k in range(len(shape))) % 64] + noise(rng.choice([3, 6]))
+        else:  # bands of different noise amplitude along the first axis: the spread changes from window to window
+            w = rng.randint(20, 90)
+            lo, hi = noise(rng.choice([2, 4])), noise(rng.choice([15, 40]))
+            a = np.where((idx[0] // w) % 2 == 0, lo, hi)
+        a = np.array(a, dtype=np.int64).reshape(shape)
+        feats = ["ldata:" + style, "lnoise:" + ("bell" if bell else "uniform")]
+        if rng.random() < 0.85:  # many isolated spikes
+            for _ in range(max(3, n // rng.choice([300, 1000, 3000]))):
+                p = tuple(rng.randrange(s) for s in shape)
+                a[p] += rng.choice([-1, 1]) * rng.choice([12, 40, 300])
+            feats.append("spikes")
+        if rng.random() < 0.5:  # a few clusters of adjacent spikes
+            for _ in range(rng.randint(1, 6)):
+                p = [rng.randrange(s) for s in shape]
+                sl = tuple(slice(q, q + rng.randint(1, 3)) for q in p)
+                a[sl] += rng.choice([-1, 1]) * rng.choice([30, 300])
+            feats.append("cluster")
+        if rng.random() < 0.4:  # a constant region
+            p = [rng.randrange(s) for s in shape]
+            sl = tuple(slice(q, q + rng.randint(2, 40)) for q in p)
+            a[sl] = rng.randint(-20, 20)
+            feats.append("constant-region")
+        return [int(v) for v in a.ravel()], feats
+
+    def gen_large(self, rng, kind, ndim, above, with_model, wide=False):
+        """one image with more than `above` (2^16 or 2^17) elements"""
+        if rng.random() < 0.5:
+            block = [rng.choice([3, 5, 5, 7])] * ndim
+        else:
+            block = [rng.choice([3, 5, 7]) for _ in range(ndim)]
+        if ndim == 1:
+            shape = [above + rng.randint(1, 4000)]
+        else:
+            n1 = rng.choice([1000, 2000]) if wide else rng.choice([60, 130, 256, 256, 260, 512])
+            n0 = -(-(above + rng.randint(1, 12000)) // n1)
+            shape = [n0, n1]
+        data, feats = self.gen_large_data(rng, shape)
+        # thresholds at which the noise puts a few percent of the pixels just beyond the threshold (and as many just inside)
+        thr = rng.choice([1.5, 2.0, 2.0, 2.5, 2.9, 3.0] if "lnoise:bell" in feats else [1.2, 1.2, 1.5, 1.5, 2.0])
+        easy = rng.random() < 0.75
+        return {"kind": kind, "shape": shape, "data": data, "den": 1 if easy else rng.choice([1, 4]),
+                "offset": 0 if easy else rng.choice([0, 1000]), "block": block,
+                "block_int": len(set(block)) == 1 and rng.random() < 0.5,
+                "threshold": float(thr).hex(),
+                "layout": rng.choice(["C", "C", "C", "F", "strided"]), "gen": ["large-targeted"] + feats,
+                "with_model": with_model, "sample_seed": rng.randrange(2 ** 30)}
+
+    def large_cases(self, tier):
+        """the large class, one generator per (VERIF_SEED, tier, slot): quick = a 2-D median image plus one of
+        {2-D mean, 1-D median, 1-D mean} (rotating with the seed, specification only); thorough = 9 cases"""
+        seed = int(os.environ.get("VERIF_SEED", "0"))
+        a16, a17 = 2 ** 16, 2 ** 17
+        if tier == "quick":
+            second = [("mean", 2), ("median", 1), ("mean", 1)][seed % 3]
+            plan = [("median", 2, a16, True, False), (second[0], second[1], a16, False, False)]
+        else:
+            k17 = ["median", "mean"][seed % 2]
+            plan = [("median", 2, a16, True, False), ("mean", 2, a16, True, False), ("median", 1, a16, True, False),
+                    ("mean", 1, a16, True, False), ("median", 2, a17, True, False), ("mean", 2, a17, True, False),
+                    ("median", 2, a16, True, True), ("median", 2, a16, True, False), (k17, 1, a17, False, False)]
+        for slot, (kind, ndim, above, with_model, wide) in enumerate(plan):
+            yield self.gen_large(random.Random(f"C13-large:{seed}:{tier}:{slot}"), kind, ndim, above, with_model, wide)
+
     def generate(self, rng, tier):
         ndim = rng.choice([1, 2, 2])
         kind = rng.choice(["mean", "median"])
@@ -126,6 +283,21 @@ class C13(Prop):
                 "threshold": thr, "layout": rng.choice(["C", "C", "F", "strided"]), "gen": feats}
 
     def targeted(self, tier):
+        # the small cases first (a gross defect is then reported, and shrunk, on a small input); the large ones after
+        # them at even positions two places apart, so that the pool (chunks of two) hands them to different workers
+        large = list(self.large_cases(tier))
+        small = list(self.small_targeted(tier))
+        k = min(len(small), max(0, len(large) - 1))
+        k += (len(small) - k) % 2 if k < len(small) else 0
+        head, between = small[:len(small) - k], small[len(small) - k:]
+        yield from head
+        for c in large:
+            yield c
+            if between:
+                yield between.pop(0)
+        yield from between
+
+    def small_targeted(self, tier):
         base = {"den": 1, "offset": 0, "block_int": False, "layout": "C", "gen": ["targeted"]}
         # the repo's own four examples (values x10), plus the single-window, constant and inf cases
         y = [10, 11, 15, 13, 12, 11, 10, 16, 12, 13]
@@ -167,12 +339,24 @@ class C13(Prop):
                 impl = {"raises": type(e).__name__, "msg": str(e)[:200]}
         impl["input_unchanged"] = bool(x.shape == snapshot.shape and np.array_equal(x, snapshot))
 
-        rep = ctx.driver.call("c13.filter", kind=kind, shape=shape, data=[core.rat(v) for v in vals], block=block,
-                              threshold=None if math.isinf(t) else core.rat(t))
+        n = len(vals)
+        sparse = n > SPARSE_ABOVE
+        req = dict(kind=kind, shape=shape, data=[core.rat(v) for v in vals], block=block,
+                   threshold=None if math.isinf(t) else core.rat(t))
+        if sparse:
+            changed = []
+            if "raises" not in impl and impl["shape"] == shape:
+                changed = np.flatnonzero(~(got.ravel() == snapshot.ravel()))
+            pixels = pick_pixels(case, shape, changed)
+            rep = ctx.driver.call("c13.at", **req, pixels=pixels, model="all" if case.get("with_model", True) else "no")
+            spec_at = dict(zip(pixels, rep["spec"]))
+        else:
+            rep = ctx.driver.call("c13.filter", **req)
+            spec_at = rep["spec"]  # every pixel
+        have_model = rep["shape"] is not None  # the whole-array mechanism may be left out for a large image
         scale = max(1.0, max(abs(float(v)) for v in vals))
         abs_tol = 1e-12 * scale
         halves = [b // 2 for b in block]
-        n = len(vals)
         idx = np.indices(shape).reshape(len(shape), -1).T if n else []
 
         def real_window(p):  # no padded value in the window of pixel p
@@ -208,29 +392,45 @@ class C13(Prop):
             feats.add("offset")
         if any(s == b for s, b in zip(shape, block)):
             feats.add("size==window")
-        model = {"shape": rep["shape"], "input_unchanged": True}
+        if n > 2 ** 17:
+            feats.add("large:above-2^17")
+        elif n > 2 ** 16:
+            feats.add("large:above-2^16")
+        if sparse:
+            feats.add("mechanism:evaluated" if have_model else "mechanism:left-out")
+        model = {"shape": rep["shape"] if have_model else "not evaluated", "input_unchanged": True}
         spec = {"shape": shape, "input_unchanged": True}
         model_ok = spec_ok = impl.get("input_unchanged", False) and "raises" not in impl
         bad_model, bad_spec, nears = [], [], 0
+        cmp_model = False
         if "raises" not in impl:
-            if impl["shape"] != rep["shape"]:
+            if have_model and impl["shape"] != rep["shape"]:
                 model_ok = False
             if impl["shape"] != shape:
                 spec_ok = False
             else:
                 out = impl["out"]
                 n_int = n_repl_int = n_repl_border = 0
-                for k in range(n):
-                    p = tuple(int(i) for i in idx[k])
-                    if impl["shape"] == rep["shape"]:
-                        ok, nr = ok_cell(out[k], rep["model"][k], p)
+                cmp_model = have_model and impl["shape"] == rep["shape"]
+                if cmp_model:  # the mechanism at every pixel, also of a large image
+                    for k in range(n):
+                        ok, nr = ok_cell(out[k], rep["model"][k], tuple(int(i) for i in idx[k]))
                         nears += nr
                         if not ok:
                             bad_model.append(k)
-                    s = rep["spec"][k]
+                    if sparse:  # the specification decides about the pixels where mechanism and implementation differ
+                        extra = [k for k in bad_model if k not in spec_at][:300]
+                        if extra:
+                            rep2 = ctx.driver.call("c13.at", **req, pixels=extra, model="no")
+                            spec_at.update(zip(extra, rep2["spec"]))
+                for k in (sorted(spec_at) if sparse else range(n)):
+                    p = tuple(int(i) for i in idx[k])
+                    s = spec_at[k]
                     if s["kind"] == "exact":
                         n_int += 1
-                        ok, _ = ok_cell(out[k], s, p)
+                        ok, nr = ok_cell(out[k], s, p)
+                        if not cmp_model:  # (only a large image can be without the mechanism)
+                            nears += nr
                         if s["outlier"]:
                             n_repl_int += 1
                     else:
@@ -242,6 +442,9 @@ class C13(Prop):
                             n_repl_border += 1
                     if not ok:
                         bad_spec.append(k)
+                if sparse:
+                    spec["pixels_compared"] = len(spec_at)
+                    feats.add("spec-at:all-pixels" if len(spec_at) == n else "spec-at:pixel-set")
                 if n_int:
                     feats.add("has-interior")
                 if n_repl_int:
@@ -258,8 +461,9 @@ class C13(Prop):
         spec["mismatch_pixels"] = bad_spec[:20]
         if bad_model or bad_spec:
             k = (bad_spec or bad_model)[0]
-            model["first"] = {"pixel": k, "impl": impl["out"][k], "model": rep["model"][k] if impl["shape"] == rep["shape"] else None,
-                              "spec": rep["spec"][k]}
+            model["first"] = {"pixel": k, "coords": [int(i) for i in idx[k]], "impl": impl["out"][k],
+                              "model": rep["model"][k] if cmp_model else None,
+                              "spec": spec_at[k] if sparse and k in spec_at or not sparse else None}
         impl_view = dict(impl)
         if "out" in impl_view and len(impl_view["out"]) > 64:
             impl_view["out"] = impl_view["out"][:64] + ["..."]
@@ -271,6 +475,29 @@ class C13(Prop):
     # ------------------------------------------------------------------ shrinking
     def shrink(self, case):
         shape, block = case["shape"], case["block"]
+        if len(case["data"]) > 1024:
+            # a large image: every evaluation costs seconds, so cut geometrically (a half or an eighth of an axis from
+            # either end), leave the whole-array mechanism out, look at fewer pixels, and simplify layout/offset/
+            # denominator; no single-row cuts
+            arr = np.array(case["data"], dtype=np.int64).reshape(shape)
+            lean = {**case, "with_model": False, "px_budget": 4000 if len(shape) == 2 else 1500}
+            for ax in range(len(shape)):
+                for div in (2, 8):
+                    cut = shape[ax] // div
+                    if cut < 1 or shape[ax] - cut < block[ax]:
+                        continue
+                    for sl in (slice(0, shape[ax] - cut), slice(cut, shape[ax])):
+                        s = [slice(None)] * len(shape)
+                        s[ax] = sl
+                        sub = arr[tuple(s)]
+                        yield {**lean, "shape": list(sub.shape), "data": [int(v) for v in sub.ravel()]}
+            if case["layout"] != "C":
+                yield {**lean, "layout": "C"}
+            if case["offset"]:
+                yield {**lean, "offset": 0}
+            if case["den"] != 1:
+                yield {**lean, "den": 1}
+            return
         arr = np.array(case["data"], dtype=object).reshape(shape)
         for ax in range(len(shape)):
             if shape[ax] > block[ax]:
